@@ -4,6 +4,7 @@ import (
 	"fmt"
 	"os"
 	"strings"
+	"unicode/utf8"
 
 	"verif/harness/app"
 	"verif/harness/codec"
@@ -86,6 +87,7 @@ func c07Profile(r *vk.RNG) app.Profile {
 	p.BigValues = r.Chance(1, 5)
 	p.FixedSizes = r.Chance(2, 3)
 	p.CatchVariants = r.Chance(1, 2)
+	p.EarlyIncmp = r.Chance(1, 4)
 	return p
 }
 
@@ -129,7 +131,9 @@ func runC07(c *vk.Ctx) {
 			continue
 		}
 		r := c.RNG(key)
-		a := app.Generate(r, c07Profile(r))
+		p := c07Profile(r)
+		p.Latin1 = i%8 == 5 // function results that are not valid UTF-8 (see the known finding in c07Compare)
+		a := app.Generate(r, p)
 		cfg := genConfigDiff(r, a, "ses1")
 		if a.Trans["nor"] != nil && r.Chance(1, 3) {
 			cfg.Language = "nor"
@@ -178,6 +182,31 @@ func runC07Deep(c *vk.Ctx) {
 }
 
 func c07Compare(c *vk.Ctx, key string, a *app.App, cfg app.Config, hist []string, sample bool) {
+	// Known, not repaired: a session whose cache holds a value that is not valid UTF-8 is saved but cannot be loaded
+	// (the record stores values as CBOR text strings, which the decoder refuses). Once the uninterrupted run holds such a
+	// value, whatever the persisted run does afterwards is reported under that one signature.
+	tainted := false
+	taint := func(o *app.Obs) {
+		if tainted || o == nil || o.Cache == nil {
+			return
+		}
+		if !utf8.ValidString(o.Cache.Last) {
+			tainted = true
+		}
+		for _, f := range o.Cache.Frames {
+			for _, v := range f {
+				if !utf8.ValidString(v) {
+					tainted = true
+				}
+			}
+		}
+	}
+	violate := func(sig, msg, key string, cs map[string]interface{}) {
+		if tainted {
+			sig = "non-utf8-value:session-cannot-be-resumed"
+		}
+		c.Violate(sig, msg, key, cs)
+	}
 	{
 		i := 1
 		if sample {
@@ -231,6 +260,7 @@ func c07Compare(c *vk.Ctx, key string, a *app.App, cfg app.Config, hist []string
 					fmt.Fprintf(os.Stderr, "PR  %s\n    state=%+v\n    events=%v\n", o.Brief(), o.State, o.Events)
 				}
 				ro := ref[step]
+				taint(ro)
 				cs := func() map[string]interface{} {
 					return map[string]interface{}{"backend": bk, "config": cfg, "app": a.Describe(), "history": hist[:step+1], "long_lived": ro.Brief(), "persisted": o.Brief()}
 				}
@@ -240,28 +270,28 @@ func c07Compare(c *vk.Ctx, key string, a *app.App, cfg app.Config, hist []string
 					break
 				}
 				if o.Cont != ro.Cont || app.ErrClass(o.ExecErr) != app.ErrClass(ro.ExecErr) || app.ErrClass(o.FlushErr) != app.ErrClass(ro.FlushErr) {
-					c.Violate(fmt.Sprintf("diverge:result:%s", divergeWhat(o, ro)), fmt.Sprintf("step %d backend %s: long-lived %s | persisted %s", step, bk, ro.Brief(), o.Brief()), key, cs())
+					violate(fmt.Sprintf("diverge:result:%s", divergeWhat(o, ro)), fmt.Sprintf("step %d backend %s: long-lived %s | persisted %s", step, bk, ro.Brief(), o.Brief()), key, cs())
 					break
 				}
 				if o.Out != ro.Out {
-					c.Violate("diverge:output:"+diffComponent(ro.Out, o.Out), fmt.Sprintf("step %d backend %s: long-lived out %q | persisted out %q", step, bk, ro.Out, o.Out), key, cs())
+					violate("diverge:output:"+diffComponent(ro.Out, o.Out), fmt.Sprintf("step %d backend %s: long-lived out %q | persisted out %q", step, bk, ro.Out, o.Out), key, cs())
 					break
 				}
 				if o.FinishErr != "" {
-					c.Violate("finish-error:"+bk, fmt.Sprintf("step %d backend %s: Finish failed: %s", step, bk, o.FinishErr), key, cs())
+					violate("finish-error:"+bk, fmt.Sprintf("step %d backend %s: Finish failed: %s", step, bk, o.FinishErr), key, cs())
 					break
 				}
 				// snapshot round trip: what a fresh handle reads equals the live objects that were saved
 				if o.StoredErr != "" {
-					c.Violate("stored-unreadable:"+bk, fmt.Sprintf("step %d backend %s: stored snapshot cannot be loaded: %s", step, bk, o.StoredErr), key, cs())
+					violate("stored-unreadable:"+bk, fmt.Sprintf("step %d backend %s: stored snapshot cannot be loaded: %s", step, bk, o.StoredErr), key, cs())
 					break
 				}
 				if !o.StoredState.Equal(o.State) {
-					c.Violate("snapshot-state-differs:"+bk, fmt.Sprintf("step %d backend %s: stored state %+v live %+v", step, bk, o.StoredState, o.State), key, cs())
+					violate("snapshot-state-differs:"+bk, fmt.Sprintf("step %d backend %s: stored state %+v live %+v", step, bk, o.StoredState, o.State), key, cs())
 					break
 				}
 				if !o.StoredCache.Equal(o.Cache) {
-					c.Violate("snapshot-cache-differs:"+bk, fmt.Sprintf("step %d backend %s: stored cache %+v live %+v", step, bk, o.StoredCache, o.Cache), key, cs())
+					violate("snapshot-cache-differs:"+bk, fmt.Sprintf("step %d backend %s: stored cache %+v live %+v", step, bk, o.StoredCache, o.Cache), key, cs())
 					break
 				}
 				c.Count("snapshots_reread", 1)
@@ -328,6 +358,7 @@ func c07Compare(c *vk.Ctx, key string, a *app.App, cfg app.Config, hist []string
 							c.Count("interleaved_requests", 1)
 							c.Count("interleaved_requests:persister-"+mode, 1)
 							ro := rf[step]
+							taint(ro)
 							if o.Panic != "" || ro.Panic != "" {
 								*ok = false
 								continue
@@ -339,7 +370,7 @@ func c07Compare(c *vk.Ctx, key string, a *app.App, cfg app.Config, hist []string
 									sig = "interleaved-sessions-diverge:shared-persister-" + mode + ":" + bk
 									what = "one shared persister object (" + mode + "), some requests abandoned before Finish"
 								}
-								c.Violate(sig, fmt.Sprintf("two sessions alternating on one %s store, %s: session %d step %d: uninterrupted %s | persisted %s", bk, what, which+1, step, ro.Brief(), o.Brief()), key,
+								violate(sig, fmt.Sprintf("two sessions alternating on one %s store, %s: session %d step %d: uninterrupted %s | persisted %s", bk, what, which+1, step, ro.Brief(), o.Brief()), key,
 									map[string]interface{}{"backend": bk, "config": cfg, "app": a.Describe(), "history_session_1": hist, "history_session_2": hist2, "persister": mode})
 								okA, okB = false, false
 								continue
@@ -365,7 +396,7 @@ func c07Compare(c *vk.Ctx, key string, a *app.App, cfg app.Config, hist []string
 			b.Cleanup()
 		}
 		if err := a.CheckCanaries(); err != nil {
-			c.Violate("shared-data-modified", err.Error(), key, map[string]interface{}{"app": a.Describe(), "history": hist})
+			violate("shared-data-modified", err.Error(), key, map[string]interface{}{"app": a.Describe(), "history": hist})
 		}
 	}
 }
